@@ -10,13 +10,19 @@
 //                        really receives the datagram), `e` EAGAIN, `x` a hard error (EPERM); default `o`.
 //   * epoll_ctl       -> forwarded; the interest mask per fd is recorded (is EPOLLOUT armed?).
 //   * clock_gettime   -> CLOCK_MONOTONIC is virtual (moves only by `adv <ms>`), so idle expiry is exact.
+//   * getnameinfo     -> calls made by the I/O thread (UdpEngine::key()) fail (EAI_FAIL) where the op marks a datagram / a via with `!`.
+// Independent of the engine's key(): every peer name the harness prints comes from its OWN inet_ntop formatting of a socket address; a live
+// ServerPeer session whose `pkey` differs from that formatting of its stored sockaddr is printed with `!key`, an index key the harness does
+// not know as `?` — the plugin turns both into property violations (distinct peers must not share a session).
 // 8 raw UDP sockets ("peers") talk to the engine: 0-4 on 127.0.0.1 (distinct ports), 5 and 6 on 127.0.0.2 with the SAME port numbers
 // as peers 0 and 1, 7 on [::1] with the port number of peer 0 — so the host part and the address family of a peer key matter.
 // What the peers receive (bytes, source) is what the `S...` events print — the datagram as it arrived, not as handed to send().
 //
 // Ops (one answer line each: `<events> | <state>`):
 //   reset [ms=N] [wq=N] [cob=0|1] [idle=S] [age=S] [stall=MS] [chunk=N] [batch=0|1] [et=0|1]     fresh engine
-//   listen | listen6            addListener("127.0.0.1" | "::1", 0)            -> L<lid>
+//   listen | listen6 | listenD  addListener("127.0.0.1" | "::1" | "::", 0)      -> L<lid>   ("::" = dual-stack: IPv4 peers appear as
+//                               ::ffff:127.0.0.x:<port>, a numeric host of 16+ characters; address ids 10+k = the v4-mapped form of peer k)
+//   dg items and via may end in `!`: getnameinfo (interposed) fails for that one key() call (empty key).
 //   dg <lid> <p>:<pl>[,<p>:<pl>…]   peers send to listener lid, then ONE EPOLLIN on it
 //   cdg <sid> <pl>[,<pl>…]      the connected peer of client session sid sends to it, then ONE EPOLLIN on its socket
 //   connect <p> | via <lid> <p> | close <sid> | send <sid> <pl> <ok|eagain|err>
@@ -267,6 +273,28 @@ struct Ev
 };
 static std::vector<Ev> g_log;
 static std::deque<char> g_script;                  // positional answers (flush scripts of wl / wc)
+static std::deque<bool> g_gniScript;               // per key() call of the I/O thread: true = getnameinfo fails (EAI_FAIL)
+static std::map<int, std::vector<bool>> g_gniByFd;  // while a batch is being built: the flags of each event, by the descriptor it is about;
+static bool g_batched = false;                      // ordered into g_gniScript once the processing order of the batch is known
+static unsigned long g_gniCalls = 0, g_gniFailed = 0;
+
+typedef int (*getnameinfo_t)(const struct sockaddr*, socklen_t, char*, socklen_t, char*, socklen_t, int);
+extern "C" int getnameinfo(const struct sockaddr* sa, socklen_t salen, char* host, socklen_t hostlen, char* serv, socklen_t servlen, int flags)
+{
+  static getnameinfo_t real = (getnameinfo_t)dlsym(RTLD_NEXT, "getnameinfo");
+  bool engine = g_stepA.load(std::memory_order_acquire) && !pthread_equal(pthread_self(), g_main);
+  if (engine)
+  {
+    ++g_gniCalls;
+    if (!g_gniScript.empty())
+    {
+      bool fail = g_gniScript.front();
+      g_gniScript.pop_front();
+      if (fail) { ++g_gniFailed; return EAI_FAIL; }
+    }
+  }
+  return real(sa, salen, host, hostlen, serv, servlen, flags);
+}
 struct Keyed { std::size_t len; std::uint32_t crc; char ans; bool used; };
 static std::vector<Keyed> g_keyed;                 // answers for command sends, matched by payload
 static unsigned long g_sendCalls = 0, g_injectedEagain = 0, g_injectedErr = 0, g_forwarded = 0, g_kernelRefused = 0, g_unkeyed = 0;
@@ -304,7 +332,7 @@ typedef ssize_t (*send_t)(int, const void*, size_t, int);
 static sendto_t realSendto() { static sendto_t f = (sendto_t)dlsym(RTLD_NEXT, "sendto"); return f; }
 static send_t realSend() { static send_t f = (send_t)dlsym(RTLD_NEXT, "send"); return f; }
 
-static int scripted(int fd, const void* buf, size_t n)   // 0 forward, 1 EAGAIN, 2 error
+static int scripted(int fd, const void* buf, size_t n, const sockaddr* to)   // 0 forward, 1 EAGAIN, 2 error
 {
   ++g_sendCalls;
   char a = 0;
@@ -320,9 +348,14 @@ static int scripted(int fd, const void* buf, size_t n)   // 0 forward, 1 EAGAIN,
     else { a = 'o'; ++g_unkeyed; }
   }
   // the kernel checks the size before anything else (EMSGSIZE; the limit is 65507 on an IPv4 socket, 65527 on an IPv6 one): let it say so itself
+  // (a v4-mapped destination travels over IPv4 even from an IPv6 socket)
   sockaddr_storage me{}; socklen_t ml = sizeof(me);
+  sockaddr_storage pe{}; socklen_t pl = sizeof(pe);
+  if (!to && getpeername(fd, reinterpret_cast<sockaddr*>(&pe), &pl) == 0) to = reinterpret_cast<sockaddr*>(&pe);
   size_t limit = 65507;
-  if (getsockname(fd, reinterpret_cast<sockaddr*>(&me), &ml) == 0 && me.ss_family == AF_INET6) limit = 65527;
+  if (getsockname(fd, reinterpret_cast<sockaddr*>(&me), &ml) == 0 && me.ss_family == AF_INET6 &&
+      !(to && to->sa_family == AF_INET6 && IN6_IS_ADDR_V4MAPPED(&reinterpret_cast<const sockaddr_in6*>(to)->sin6_addr)))
+    limit = 65527;
   if (n > limit) return 0;
   if (a == 'e') { ++g_injectedEagain; return 1; }
   if (a == 'x') { ++g_injectedErr; return 2; }
@@ -333,7 +366,7 @@ extern "C" ssize_t sendto(int fd, const void* buf, size_t n, int flags, const st
 {
   bool engine = g_stepA.load(std::memory_order_acquire) && !pthread_equal(pthread_self(), g_main);
   if (!engine) return realSendto()(fd, buf, n, flags, to, tl);
-  int a = scripted(fd, buf, n);
+  int a = scripted(fd, buf, n, to);
   if (a == 1) { errno = EAGAIN; return -1; }
   if (a == 2) { errno = EPERM; return -1; }
   ssize_t r = realSendto()(fd, buf, n, flags, to, tl);     // the engine's own flags go to the kernel untouched
@@ -351,7 +384,7 @@ extern "C" ssize_t send(int fd, const void* buf, size_t n, int flags)
 {
   bool engine = g_stepA.load(std::memory_order_acquire) && !pthread_equal(pthread_self(), g_main);
   if (!engine) return realSend()(fd, buf, n, flags);
-  int a = scripted(fd, buf, n);
+  int a = scripted(fd, buf, n, nullptr);
   if (a == 1) { errno = EAGAIN; return -1; }
   if (a == 2) { errno = EPERM; return -1; }
   ssize_t r = realSend()(fd, buf, n, flags);
@@ -379,7 +412,8 @@ struct World
 {
   std::unique_ptr<UdpEngine> eng;
   std::vector<iora::network::ListenerId> lids;     // case-level listener number (1-based) -> real id
-  std::vector<int> lfam;                            // its address family
+  std::vector<int> lfam;                            // its address family (AF_UNSPEC = dual-stack "::")
+  std::map<int, std::string> wildPort;              // port of a dual-stack listener -> L<lid> (its replies leave from whatever local address fits)
   std::map<std::string, std::string> srcName;      // local "host:port" of an engine socket -> L<lid> / C<sid>
   std::map<SessionId, int> clientPeer;             // client session -> peer index it is connected to
 };
@@ -438,6 +472,9 @@ static bool initPeers()
   if (!bindPeer(5, AF_INET, "127.0.0.2", g_peer[0].port)) return false;     // same port as peer 0, other host
   if (!bindPeer(6, AF_INET, "127.0.0.2", g_peer[1].port)) return false;
   if (!bindPeer(7, AF_INET6, "::1", g_peer[0].port)) return false;           // same port as peer 0, other family
+  // address ids 10+k: the v4-mapped form under which IPv4 peer k appears on a dual-stack listener (numeric host of 16+ characters)
+  for (int k = 0; k < 7; ++k)
+    g_keyToPeer["::ffff:" + g_peer[k].host + ":" + std::to_string(g_peer[k].port)] = 10 + k;
   return true;
 }
 
@@ -458,11 +495,13 @@ static void stopEngine()
   { std::lock_guard<std::mutex> g(g_maskM); g_mask.clear(); }
   W.lids.clear();
   W.lfam.clear();
+  W.wildPort.clear();
   W.srcName.clear();
   W.clientPeer.clear();
   g_log.clear();
   g_script.clear();
   g_keyed.clear();
+  g_gniScript.clear();
 }
 
 static bool expand(const std::string& tok, vh::Bytes& out)
@@ -489,9 +528,10 @@ static long rmem(int fd)
   return (long)v[0];   // SK_MEMINFO_RMEM_ALLOC
 }
 
-static bool rawSendAndWait(int peer, const std::string& host, int toPort, int dstFd, const vh::Bytes& pl)
+static bool rawSendAndWait(int peer, std::string host, int toPort, int dstFd, const vh::Bytes& pl)
 {
   sockaddr_storage to{}; socklen_t tl = 0;
+  if (g_peer[peer].family == AF_INET && host.rfind("::ffff:", 0) == 0) host = host.substr(7);   // an IPv4 socket addresses the plain form
   if (!mkAddr(host, toPort, to, tl)) { g_machinery = "bad-destination-address"; return false; }
   long before = rmem(dstFd);
   ssize_t r = realSendto()(g_peer[peer].fd, pl.data(), pl.size(), 0, reinterpret_cast<sockaddr*>(&to), tl);
@@ -517,39 +557,44 @@ static bool rawSendAndWait(int peer, const std::string& host, int toPort, int ds
 // printed from the datagram the raw peer actually RECEIVED.
 static std::string collect()
 {
-  std::map<std::string, std::deque<std::string>> receipts;    // peer key -> receipts in arrival order
-  std::map<std::string, int> expect;
-  for (auto& e : g_log)
-    if (e.isSent) expect[e.destKey]++;
+  // Every forwarded send, in I/O-thread order, is matched with the NEXT datagram waiting in the raw socket behind its destination
+  // (address ids 10+k are the v4-mapped form of IPv4 peer k: same socket). Loopback keeps the order per socket.
+  std::vector<std::string> receiptOf(g_log.size());
   std::vector<std::uint8_t> buf(70000);
-  for (auto& kv : expect)
+  for (std::size_t li = 0; li < g_log.size(); ++li)
   {
-    auto pit = g_keyToPeer.find(kv.first);
+    auto& e = g_log[li];
+    if (!e.isSent) continue;
+    auto pit = g_keyToPeer.find(e.destKey);
     if (pit == g_keyToPeer.end()) continue;          // sent to something that is not one of our peers
-    int fd = g_peer[pit->second].fd;
-    for (int k = 0; k < kv.second; ++k)
+    int fd = g_peer[pit->second >= 10 ? pit->second - 10 : pit->second].fd;
+    // the kernel accepted the datagram, so it is normally already queued; wait generously the first time one is missing, then
+    // (a broken tree, e.g. a corked socket, loses every one of them) only briefly, then not at all: bounded work
+    static const bool fast = std::getenv("C06_FAST_LOSS") != nullptr;       // re-runs of an already failing case
+    int waitMs = g_lost == 0 ? (fast ? 400 : 3000) : g_lost < 8 ? 200 : 0;
+    pollfd p{fd, POLLIN, 0};
+    if (poll(&p, 1, waitMs) <= 0) { ++g_lost; continue; }
+    sockaddr_storage from{}; socklen_t fl = sizeof(from);
+    ssize_t n = recvfrom(fd, buf.data(), buf.size(), MSG_DONTWAIT, reinterpret_cast<sockaddr*>(&from), &fl);
+    if (n < 0) { ++g_lost; continue; }
+    auto sn = W.srcName.find(addrKey(reinterpret_cast<sockaddr*>(&from)));
+    std::string src = sn == W.srcName.end() ? "?" : sn->second;
+    if (sn == W.srcName.end())
     {
-      // the kernel accepted the datagram, so it is normally already queued; wait generously the first time one is missing, then
-      // (a broken tree, e.g. a corked socket, loses every one of them) only briefly, then not at all: bounded work
-      static const bool fast = std::getenv("C06_FAST_LOSS") != nullptr;       // re-runs of an already failing case
-      int waitMs = g_lost == 0 ? (fast ? 400 : 3000) : g_lost < 8 ? 200 : 0;
-      pollfd p{fd, POLLIN, 0};
-      if (poll(&p, 1, waitMs) <= 0) { ++g_lost; break; }
-      sockaddr_storage from{}; socklen_t fl = sizeof(from);
-      ssize_t n = recvfrom(fd, buf.data(), buf.size(), MSG_DONTWAIT, reinterpret_cast<sockaddr*>(&from), &fl);
-      if (n < 0) { ++g_lost; break; }
-      auto sn = W.srcName.find(addrKey(reinterpret_cast<sockaddr*>(&from)));
-      std::string src = sn == W.srcName.end() ? "?" : sn->second;
-      receipts[kv.first].push_back("S" + src + ">" + peerName(kv.first) + ":" + std::to_string(n) + ":" + std::to_string(crc32(buf.data(), (size_t)n)));
+      auto wp = W.wildPort.find(from.ss_family == AF_INET ? ntohs(reinterpret_cast<sockaddr_in*>(&from)->sin_port)
+                                                          : ntohs(reinterpret_cast<sockaddr_in6*>(&from)->sin6_port));
+      if (wp != W.wildPort.end()) src = wp->second;
     }
+    receiptOf[li] = "S" + src + ">" + peerName(e.destKey) + ":" + std::to_string(n) + ":" + std::to_string(crc32(buf.data(), (size_t)n));
   }
   std::vector<std::string> out;
   std::vector<std::string> closes;    // consecutive close events are sorted (GC / shutdown close in hash order)
   auto flushCloses = [&] { std::sort(closes.begin(), closes.end(), [](const std::string& a, const std::string& b) {
                                return std::stoul(a.substr(1)) < std::stoul(b.substr(1)); });
                            for (auto& c : closes) out.push_back(c); closes.clear(); };
-  for (auto& e : g_log)
+  for (std::size_t li = 0; li < g_log.size(); ++li)
   {
+    auto& e = g_log[li];
     if (!e.isSent)
     {
       if (e.text[0] == 'X') { closes.push_back(e.text); continue; }
@@ -558,12 +603,11 @@ static std::string collect()
       continue;
     }
     flushCloses();
-    auto& q = receipts[e.destKey];
     // self-test of the "did it reproduce?" path: report ONE received datagram as lost, only in the main run (not in re-runs)
     static bool fakeLost = std::getenv("C06_SELFTEST_FAKE_LOST_ONCE") != nullptr && std::getenv("C06_FAST_LOSS") == nullptr;
-    if (q.empty()) out.push_back("S?lost>" + peerName(e.destKey));
-    else if (fakeLost) { fakeLost = false; out.push_back("S?lost>" + peerName(e.destKey)); q.pop_front(); }
-    else { out.push_back(q.front()); q.pop_front(); }
+    if (receiptOf[li].empty()) out.push_back("S?lost>" + peerName(e.destKey));
+    else if (fakeLost) { fakeLost = false; out.push_back("S?lost>" + peerName(e.destKey)); }
+    else out.push_back(receiptOf[li]);
   }
   flushCloses();
   // anything else sitting in a peer socket was never handed to the kernel by a send we saw: a duplicate / phantom datagram
@@ -622,8 +666,11 @@ static std::string stateLine()
     }
     else
     {
-      // the address the session would SEND to (its stored sockaddr), not the index key
-      o << sid << "p@" << peerName(addrKey(reinterpret_cast<sockaddr*>(&s->peer))) << "/" << lidNumber(s->owner);
+      // the address the session would SEND to (its stored sockaddr); independently, its index key `pkey` must be exactly the harness's
+      // own formatting of that address — an empty or different key means distinct peers can share a session
+      std::string own = addrKey(reinterpret_cast<sockaddr*>(&s->peer));
+      o << sid << "p@" << peerName(own) << "/" << lidNumber(s->owner);
+      if (s->pkey != own) o << "!key";
     }
   }
   o << " l=";
@@ -662,6 +709,8 @@ static std::string answer()
 {
   g_script.clear();
   g_keyed.clear();
+  g_gniScript.clear();
+  g_gniByFd.clear();
   return collect() + " | " + stateLine();
 }
 
@@ -670,6 +719,7 @@ static std::string doReset(const std::vector<std::string>& t)
   stopEngine();
   drainPeers();
   TransportConfig cfg;                       // the repository's defaults, overridden only by what the op names
+  bool batched = false;
   cfg.protocol = iora::network::Protocol::UDP;
   for (std::size_t i = 1; i < t.size(); ++i)
   {
@@ -684,10 +734,11 @@ static std::string doReset(const std::vector<std::string>& t)
     else if (k == "age") cfg.maxConnAge = std::chrono::seconds(v);
     else if (k == "stall") cfg.writeStallTimeout = std::chrono::milliseconds(v);
     else if (k == "chunk") cfg.ioReadChunk = v;
-    else if (k == "batch") cfg.batching.enabled = v != 0;
+    else if (k == "batch") { cfg.batching.enabled = v != 0; batched = v != 0; }
     else if (k == "et") cfg.useEdgeTriggered = v != 0;
     else return "bad-op";
   }
+  g_batched = batched;
   g_vms.store(0);
   g_virtual.store(true);
   W.eng = std::make_unique<UdpEngine>(cfg);
@@ -703,9 +754,11 @@ static std::string doReset(const std::vector<std::string>& t)
       sockaddr_storage ss{}; socklen_t sl = sizeof(ss);
       if (getsockname(it->second->fd, reinterpret_cast<sockaddr*>(&ss), &sl) == 0)
       {
-        W.srcName[addrKey(reinterpret_cast<sockaddr*>(&ss))] = "C" + std::to_string(s);
+        std::string lk = addrKey(reinterpret_cast<sockaddr*>(&ss));
+        W.srcName[lk] = "C" + std::to_string(s);
+        if (lk.rfind("::ffff:", 0) == 0) W.srcName[lk.substr(7)] = "C" + std::to_string(s);   // what an IPv4 peer sees as the source
         auto pk = g_keyToPeer.find(a.host + ":" + std::to_string(a.port));
-        if (pk != g_keyToPeer.end()) W.clientPeer[s] = pk->second;
+        if (pk != g_keyToPeer.end()) W.clientPeer[s] = pk->second >= 10 ? pk->second - 10 : pk->second;   // the raw socket behind the address
       }
     } };
   cbs.onData = [](SessionId s, iora::core::BufferView d, std::chrono::steady_clock::time_point) {
@@ -742,23 +795,31 @@ static int clientFd(unsigned long long sid)
 static int prepDg(unsigned long long lid, const std::string& spec)
 {
   std::vector<std::pair<int, vh::Bytes>> dgs;
+  std::vector<bool> fails;
   std::stringstream ss(spec);
   std::string item;
   while (std::getline(ss, item, ','))
   {
+    bool keyFails = !item.empty() && item.back() == '!';
+    if (keyFails) item.pop_back();
     auto c = item.find(':');
     unsigned long long p;
     vh::Bytes pl;
     if (c == std::string::npos || !vh::parseNat(item.substr(0, c), p) || p >= (unsigned)kPeers || !expand(item.substr(c + 1), pl)) return -2;
     dgs.emplace_back((int)p, std::move(pl));
+    fails.push_back(keyFails);
   }
   int lfd = listenerFd(lid);
   if (lfd < 0) return -1;
   auto la = W.eng->getListenerAddress(W.lids[lid - 1]);
-  for (auto& d : dgs)
+  for (std::size_t i = 0; i < dgs.size(); ++i)
   {
-    if (g_peer[d.first].family != W.lfam[lid - 1]) return -2;      // a v4 socket cannot reach a v6-only listener and vice versa
-    if (!rawSendAndWait(d.first, la.host, la.port, lfd, d.second)) return -3;
+    auto& d = dgs[i];
+    int lf = W.lfam[lid - 1];
+    if (lf != AF_UNSPEC && g_peer[d.first].family != lf) return -2;      // a v4 socket cannot reach a v6-only listener and vice versa
+    std::string host = lf != AF_UNSPEC ? la.host : (g_peer[d.first].family == AF_INET ? "127.0.0.1" : "::1");
+    if (!rawSendAndWait(d.first, host, la.port, lfd, d.second)) return -3;
+    if (!d.second.empty()) g_gniByFd[lfd].push_back(fails[i]);            // one key() call per non-empty datagram read
   }
   return lfd;
 }
@@ -787,18 +848,32 @@ static std::string enqueueCmd(const std::vector<std::string>& t)
 {
   UdpEngine& e = *W.eng;
   unsigned long long a = 0, b = 0;
-  if (t.size() == 2 && t[0] == "connect" && vh::parseNat(t[1], a) && a < (unsigned)kPeers)
+  // an address id: 0..7 = peer k as it is; 10..16 = the v4-mapped form of IPv4 peer k-10
+  auto addrOf = [](unsigned long long id, std::string& host, int& port) -> bool {
+    if (id < (unsigned)kPeers) { host = g_peer[id].host; port = g_peer[id].port; return true; }
+    if (id >= 10 && id < 17) { host = "::ffff:" + g_peer[id - 10].host; port = g_peer[id - 10].port; return true; }
+    return false;
+  };
+  std::string host; int port = 0;
+  if (t.size() == 2 && t[0] == "connect" && vh::parseNat(t[1], a) && addrOf(a, host, port))
   {
-    auto r = e.connect(g_peer[a].host, (std::uint16_t)g_peer[a].port, iora::network::TlsMode::None);
+    auto r = e.connect(host, (std::uint16_t)port, iora::network::TlsMode::None);
     if (!r.isOk()) return "connect-refused";
-    g_newClients.emplace_back(r.value(), (int)a);
+    g_newClients.emplace_back(r.value(), (int)(a >= 10 ? a - 10 : a));
     return "";
   }
-  if (t.size() == 3 && t[0] == "via" && vh::parseNat(t[1], a) && vh::parseNat(t[2], b) && b < (unsigned)kPeers)
+  if ((t.size() == 3 || (t.size() == 4 && t[3] == "!")) && t[0] == "via" && vh::parseNat(t[1], a) && vh::parseNat(t[2], b) && addrOf(b, host, port))
   {
-    iora::network::ListenerId real = (a >= 1 && a <= W.lids.size()) ? W.lids[a - 1] : (iora::network::ListenerId)(1000000 + a);
-    auto r = e.connectViaListener(real, g_peer[b].host, (std::uint16_t)g_peer[b].port);
-    return r.isOk() ? "" : "via-refused";
+    bool real_l = a >= 1 && a <= W.lids.size();
+    if (b >= 10 && real_l && W.lfam[a - 1] == AF_INET6) return "bad-op";      // a v4-mapped target on a socket bound to ::1 creates a session that cannot send
+    iora::network::ListenerId real = real_l ? W.lids[a - 1] : (iora::network::ListenerId)(1000000 + a);
+    auto r = e.connectViaListener(real, host, (std::uint16_t)port);
+    if (!r.isOk()) return "via-refused";
+    // key() is called only if viaDo gets as far as the target address: listener found and family matches
+    bool reaches = real_l && W.eng->_listeners.count(W.lids[a - 1]) &&
+                   ((b >= 7) == (W.lfam[a - 1] != AF_INET));
+    if (reaches) g_gniByFd[W.eng->_eventFd].push_back(t.size() == 4);
+    return "";
   }
   if (t.size() == 2 && t[0] == "close" && vh::parseNat(t[1], a))
     return e.close((SessionId)a) ? "" : "close-refused";
@@ -824,11 +899,30 @@ static void recordNewClients()
   g_newClients.clear();
 }
 
-static std::string doListen(bool v6)
+// The key() calls of a batch happen in the order the loop handles its events: as delivered (loopUnbatched) or command/timer descriptors
+// first (loopBatched). Turn the per-descriptor flags into that order.
+static void orderGniScript(const std::vector<std::pair<int, std::uint32_t>>& evs)
+{
+  g_gniScript.clear();
+  auto special = [](int fd) { return fd == W.eng->_eventFd || fd == W.eng->_timerFd; };
+  for (int pass = 0; pass < 2; ++pass)
+    for (auto& x : evs)
+    {
+      if (g_batched && special(x.first) != (pass == 0)) continue;
+      if (!g_batched && pass == 1) continue;
+      auto it = g_gniByFd.find(x.first);
+      if (it != g_gniByFd.end() && (x.first == W.eng->_eventFd || (x.second & EPOLLIN)))
+        for (bool b : it->second) g_gniScript.push_back(b);
+    }
+  g_gniByFd.clear();
+}
+
+static std::string doListen(int kind)    // 0 = 127.0.0.1, 1 = ::1, 2 = :: (dual-stack)
 {
   UdpEngine& e = *W.eng;
+  bool v6 = kind != 0;
   auto before = e._atomicStats.commands.load();
-  auto fut = std::async(std::launch::async, [&e, v6] { return e.addListener(v6 ? "::1" : "127.0.0.1", 0, iora::network::TlsMode::None); });
+  auto fut = std::async(std::launch::async, [&e, kind] { return e.addListener(kind == 0 ? "127.0.0.1" : kind == 1 ? "::1" : "::", 0, iora::network::TlsMode::None); });
   long long t0 = realMs();
   while (e._atomicStats.commands.load() == before)
   {
@@ -839,9 +933,10 @@ static std::string doListen(bool v6)
   auto r = fut.get();
   if (!r.isOk()) { g_machinery = v6 ? "cannot-bind-ipv6-loopback" : "cannot-bind-loopback"; return "machinery:" + g_machinery; }
   W.lids.push_back(r.value());
-  W.lfam.push_back(v6 ? AF_INET6 : AF_INET);
+  W.lfam.push_back(kind == 0 ? AF_INET : kind == 1 ? AF_INET6 : AF_UNSPEC);
   auto la = e.getListenerAddress(r.value());
   W.srcName[la.host + ":" + std::to_string(la.port)] = "L" + std::to_string(W.lids.size());
+  if (kind == 2) W.wildPort[la.port] = "L" + std::to_string(W.lids.size());
   g_log.clear();
   return "L" + std::to_string(W.lids.size()) + " | " + stateLine();
 }
@@ -869,14 +964,19 @@ static std::string step(const std::vector<std::string>& t)
   if (!W.eng) return "bad-op";
   UdpEngine& e = *W.eng;
   unsigned long long a = 0;
-  if (op == "listen" && t.size() == 1) return doListen(false);
-  if (op == "listen6" && t.size() == 1) return doListen(true);
+  if (op == "listen" && t.size() == 1) return doListen(0);
+  if (op == "listen6" && t.size() == 1) return doListen(1);
+  if (op == "listenD" && t.size() == 1) return doListen(2);
   if (op == "dg" && t.size() == 3 && vh::parseNat(t[1], a))
   {
     int fd = prepDg(a, t[2]);
     if (fd == -2) return "bad-op";
     if (fd == -3) return "machinery:" + g_machinery;
-    if (fd >= 0 && armedIn(fd) && !deliver(fd, EPOLLIN)) hang("dg");     // a socket without EPOLLIN interest is never reported readable
+    if (fd >= 0 && armedIn(fd))     // a socket without EPOLLIN interest is never reported readable
+    {
+      orderGniScript({{fd, EPOLLIN}});
+      if (!deliver(fd, EPOLLIN)) hang("dg");
+    }
     return answer();
   }
   if (op == "cdg" && t.size() == 3 && vh::parseNat(t[1], a))
@@ -892,7 +992,8 @@ static std::string step(const std::vector<std::string>& t)
     bool emptySend = false;
     if (op == "send" && t.size() == 4) { vh::Bytes pl; if (expand(t[2], pl) && pl.empty()) emptySend = true; }
     std::string r = enqueueCmd(t);
-    if (!r.empty()) { g_keyed.clear(); return r; }
+    if (!r.empty()) { g_keyed.clear(); g_gniByFd.clear(); return r; }
+    orderGniScript({{e._eventFd, EPOLLIN}});
     if (!emptySend && !deliver(e._eventFd, EPOLLIN)) hang(op);
     recordNewClients();
     return answer();
@@ -959,6 +1060,7 @@ static std::string step(const std::vector<std::string>& t)
       }
       else return "bad-op";
     }
+    orderGniScript(evs);
     if (!evs.empty() && !deliverMany(evs)) hang("multi");
     recordNewClients();
     return answer();
@@ -980,6 +1082,7 @@ static std::string step(const std::vector<std::string>& t)
     { std::lock_guard<std::mutex> lk(g_m); g_parked = false; g_go = false; g_deliver.clear(); }
     { std::lock_guard<std::mutex> g(g_maskM); g_mask.clear(); }
     W.srcName.clear();
+    W.wildPort.clear();
     W.clientPeer.clear();
     auto sr = e.start();
     if (!sr.isOk()) { g_machinery = "engine-restart-failed"; return "machinery:" + g_machinery; }
@@ -1008,7 +1111,7 @@ int main()
     catch (...) { return "throw ?"; }
   });
   stopEngine();
-  std::fprintf(stderr, "interposers: parks=%lu sendCalls=%lu eagain=%lu err=%lu forwarded=%lu kernelRefused=%lu unscripted=%lu lostReceipts=%d\n", g_parks, g_sendCalls,
-               g_injectedEagain, g_injectedErr, g_forwarded, g_kernelRefused, g_unkeyed, g_lost);
+  std::fprintf(stderr, "interposers: parks=%lu sendCalls=%lu eagain=%lu err=%lu forwarded=%lu kernelRefused=%lu unscripted=%lu lostReceipts=%d getnameinfo=%lu getnameinfoFailed=%lu\n", g_parks, g_sendCalls,
+               g_injectedEagain, g_injectedErr, g_forwarded, g_kernelRefused, g_unkeyed, g_lost, g_gniCalls, g_gniFailed);
   return rc;
 }
